@@ -1,0 +1,9 @@
+//go:build !verif
+
+package tls
+
+// In-line verification hook variables: always nil without the build tag `verif`.
+var (
+	verifHSReadHook  func(c *Conn, msg []byte)
+	verifHSWriteHook func(c *Conn, typ recordType, data []byte)
+)
